@@ -252,10 +252,11 @@ func (c *fixedChunkReader) Read(p []byte) (int, error) {
 }
 
 func runC06(r *core.Run) {
+	strictErrTexts = true
 	racePass(r, "race-formats", "all five codecs: readers each on their own stream (whole and in 7-byte reads, every corpus file), Write on shared records into separate destinations, File on one shared path; every result is compared with what the same call returned when it ran alone")
 	L := core.Pick(r, 5, 7)
 	r.Bound("all-schedules", fmt.Sprintf("every input over each format's token alphabet of length 0..%d plus the 12+ well-formed small corpus files in their LF and CRLF forms (up to 18 bytes) plus 20 inputs per format that begin, or whose first field begins, with a magic number (byte order marks whole and cut, gzip, zstd, bzip2, NUL, shebang) x EVERY partition of the stream into successive Read results x {EOF alone, EOF together with the last bytes}", L))
-	r.Assume("the controlled reader never returns (0, nil); error texts are not compared, only positions")
+	r.Assume("the controlled reader never returns (0, nil); two error items are the same error if they stand in the same position and have the same text (on the pinned tree the text is a function of the bytes alone; a path-dependent text only arises for paths that cannot be opened, which are judged by position)")
 	core.Clause(r, "all-inputs-all-schedules", core.Opts{Rule: "engine E1: for each input every delivery schedule is executed against the real decoder and compared with the one-piece reference decode; evaluations counts executions; non-trivial = input of at least 2 bytes"},
 		func(emit func(c06Case) bool) {
 			for _, f := range formats {
